@@ -279,9 +279,10 @@ func (r ValueRange) Includes(v Value) Value {
 	if v.IsNull() {
 		return True
 	}
-	if len(v.Type().TestConformance(r.TypeConstraint())) != 0 {
-		// If the value doesn't conform to the type constraint then it's
-		// definitely not in the range.
+	if !typesMayBecomeEqual(v.Type(), r.TypeConstraint()) {
+		// If the value's type can't agree with the type constraint, whatever
+		// any dynamic parts of either turn out to be, then it's definitely
+		// not in the range.
 		return False
 	}
 	if v.Type() == DynamicPseudoType {
